@@ -2,6 +2,7 @@
    Everything here is stated for ALL arguments in the stated ranges (no sampling). *)
 From CV Require Export Core.ReadOps.
 From Coq Require Import ZifyBool.
+From CV Require Import Core.ArithFacts.
 Open Scope Z_scope.
 Ltac Zify.zify_post_hook ::= Z.div_mod_to_equations.
 
@@ -167,23 +168,27 @@ Proof. apply u32_range. Qed.
    landing-pad word was checked to be a (single) far pointer: bit 2 of [far] is then 0. *)
 Lemma pointerType_far p : pointerType p = farPointer <-> p mod 8 = 2.
 Proof. unfold pointerType, farPointer. cbv zeta. destruct (_ =? _) eqn:E; lia. Qed.
+(* Go ORs the two fields (Arith.landingPadNearPointer is a Z.lor); for a far pointer the
+   fields are disjoint and the OR is the sum (ArithFacts.landingPadNearPointer_sum). *)
 Lemma landingPad_mod4 far tag : far mod 8 = 2 -> landingPadNearPointer far tag mod 4 = tag mod 4.
-Proof. unfold landingPadNearPointer, u32. lia. Qed.
+Proof. intros H. rewrite landingPadNearPointer_sum by (left; exact H). unfold u32. lia. Qed.
 Lemma landingPad_type far tag : far mod 8 = 2 -> (tag mod 4 = 0 \/ tag mod 4 = 1) ->
   pointerType (landingPadNearPointer far tag) = pointerType tag.
 Proof.
   intros Hf H. unfold pointerType. cbv zeta. rewrite landingPad_mod4 by assumption.
   destruct (tag mod 4 =? 2) eqn:E; [lia|reflexivity].
 Qed.
-Lemma landingPad_hi far tag : 0 <= tag -> landingPadNearPointer far tag / 4294967296 = tag / 4294967296.
-Proof. unfold landingPadNearPointer, u32. lia. Qed.
-Lemma landingPad_range far tag : 0 <= tag < 18446744073709551616 ->
+Lemma landingPad_hi far tag : far mod 8 = 2 -> 0 <= tag ->
+  landingPadNearPointer far tag / 4294967296 = tag / 4294967296.
+Proof. intros H. rewrite landingPadNearPointer_sum by (left; exact H). unfold u32. lia. Qed.
+Lemma landingPad_range far tag : far mod 8 = 2 -> 0 <= tag < 18446744073709551616 ->
   0 <= landingPadNearPointer far tag < 18446744073709551616.
-Proof. unfold landingPadNearPointer, u32. lia. Qed.
+Proof. intros H. rewrite landingPadNearPointer_sum by (left; exact H). unfold u32. lia. Qed.
 Lemma landingPad_offset far tag : far mod 8 = 2 ->
   ptr_offset (landingPadNearPointer far tag) = farAddress far / 8.
 Proof.
-  unfold ptr_offset, landingPadNearPointer, farAddress, s32, u32. cbv zeta. intros Hf.
+  intros Hf. rewrite landingPadNearPointer_sum by (left; exact Hf).
+  unfold ptr_offset, farAddress, s32, u32. cbv zeta.
   destruct (_ <? _) eqn:E; lia.
 Qed.
 
